@@ -179,6 +179,40 @@ mod verif_kani {
         core::mem::forget(child);
     }
 
+    fn cast_to_name(e: Expression) -> Expression {
+        Expression::TypeCast(crate::nodes::TypeCastExpression::new(e, crate::nodes::TypeName::new("T")))
+    }
+    fn check_cast_tail(child: Expression) {
+        let r = BinaryOperator::LowerThan.left_needs_parentheses(&child);
+        assert!(r, "Luau grammar: `x :: T < y` would read `T<` as the start of type parameters, so a left operand of `<` ending with a cast to a bare type name is parenthesised");
+        kani::cover!(true, "reached");
+        core::mem::forget(child);
+    }
+
+    //@harness props=C02,C12 kind=proof fns=BinaryOperator::left_needs_parentheses,ends_with_type_cast_to_type_name_without_type_parameters
+    //@ desc="left operand of `<` that IS a cast to a bare type name (`x :: T`) is parenthesised"
+    #[kani::proof]
+    #[kani::unwind(4)]
+    fn vk_binary_left_cast_direct() {
+        check_cast_tail(cast_to_name(Expression::nil()));
+    }
+
+    //@harness props=C02,C12 kind=proof fns=BinaryOperator::left_needs_parentheses,ends_with_type_cast_to_type_name_without_type_parameters
+    //@ desc="left operand of `<` of the form `a <any op> (y :: T)` (cast at its RIGHT edge) is parenthesised, for all 16 operators" budget=300
+    #[kani::proof]
+    #[kani::unwind(5)]
+    fn vk_binary_left_cast_under_binary() {
+        check_cast_tail(bin(any_binop(), Expression::nil(), cast_to_name(Expression::nil())));
+    }
+
+    //@harness props=C02,C12 kind=proof fns=BinaryOperator::left_needs_parentheses,ends_with_type_cast_to_type_name_without_type_parameters
+    //@ desc="left operand of `<` of the form `<unary op> (y :: T)` is parenthesised, for all 3 unary operators" budget=300
+    #[kani::proof]
+    #[kani::unwind(5)]
+    fn vk_binary_left_cast_under_unary() {
+        check_cast_tail(un(cast_to_name(Expression::nil())));
+    }
+
     //@harness props=C02 kind=mustfail fns=BinaryOperator::left_needs_parentheses
     //@ desc="vacuity witness: the false claim `left_needs_parentheses is true for every binary child` must be refuted"
     #[kani::proof]
